@@ -1,5 +1,6 @@
 import DoltVerif.Lemmas.ValCodecKeys
 import DoltVerif.Lemmas.ValCodecDate
+import DoltVerif.Lemmas.ValCodecDecimalOrder
 /-!
 C15 — Tuple encodings round-trip and sort like the SQL values they encode.
 
@@ -527,24 +528,28 @@ example : ValidYMD 2024 2 29 ∧ dateDomain (.ymd 2024 2 29) ∧
   have v : ValidYMD 2024 2 29 := ⟨by decide, by decide, by decide, by decide⟩
   exact ⟨v, ⟨by decide, v⟩, by decide⟩
 
-/-! ## decimals — modelled (layout, `apd.Decimal.Cmp` transliterated) and compared with the
-implementation on every run; the general theorems are *stated* here and not proved (partial). -/
+/-! ## decimals: int32 exponent, int8 sign, big-endian magnitude padded to 64-bit words;
+comparison = `apd.Decimal.Cmp` (sign, equal exponents, digit positions, aligned coefficients) -/
 
-/-- exact value order of two finite decimals `±c·10^e` (scaled to the smaller exponent) -/
-def decValueCmp (a b : Dec) : Ordering :=
-  let m := min a.exp.toInt b.exp.toInt
-  specCmpInt (a.sign * a.coeff * 10 ^ (a.exp.toInt - m).toNat) (b.sign * b.coeff * 10 ^ (b.exp.toInt - m).toNat)
+/-- **roundtrip_decimal**: every finite decimal reads back as written — except −0, whose sign byte is
+0 and which therefore reads back as +0 (`apd.Decimal.Sign` is 0 for −0; see the example below) -/
+theorem roundtrip_decimal (d : Dec) (hf : d.form = .finite) (hz : d.neg = true → d.coeff ≠ 0) :
+    readDecimal (writeDecimal d) = .ok d := readDecimal_writeDecimal d hf hz
 
-/-- NOT PROVED (needs `numDigits c = ⌊log10 c⌋+1` and the alignment step of `apd.Decimal.Cmp`):
-the stored comparison of finite decimals is the order of their exact values. -/
-def order_decimal_full : Prop :=
-  ∀ a b : Dec, a.form = .finite → b.form = .finite →
-    compareEnc .decimal (writeDecimal a) (writeDecimal b) = .ok (decValueCmp a b)
-
-/-- NOT PROVED (needs the big-endian/word-padding round trip): finite decimals other than −0 read
-back as written. -/
-def roundtrip_decimal_full : Prop :=
-  ∀ d : Dec, d.form = .finite → (d.neg = true → d.coeff ≠ 0) → readDecimal (writeDecimal d) = .ok d
+/-- **order_decimal**: the stored comparison of two finite decimals is the order of their exact
+values `±c·10^e` (`decValueCmp`: both scaled to the smaller exponent, compared as integers).
+In particular 1.0 and 1.00 compare equal although their encodings differ. -/
+theorem order_decimal (a b : Dec) (ha : a.form = .finite) (hb : b.form = .finite)
+    (za : a.neg = true → a.coeff ≠ 0) (zb : b.neg = true → b.coeff ≠ 0) :
+    compareEnc .decimal (writeDecimal a) (writeDecimal b) = .ok (decValueCmp a b) := by
+  have h : compareEnc .decimal (writeDecimal a) (writeDecimal b) =
+      (do pure (compareDecimal (← readDecimal (writeDecimal a)) (← readDecimal (writeDecimal b)))) := rfl
+  rw [h, readDecimal_writeDecimal a ha za, readDecimal_writeDecimal b hb zb]
+  simp only [bind, Except.bind, pure, Except.pure]
+  congr 1
+  unfold compareDecimal
+  simp only [ha, hb]
+  simp [Dec.cmp_eq_value a b ha hb]
 
 /-- what is proved: the three special values round-trip and order as NaN last, −Inf first -/
 theorem decimal_specials :
@@ -555,8 +560,8 @@ theorem decimal_specials :
     compareDecimal ⟨.nan, false, 0, 0⟩ ⟨.infinite, false, 0, 0⟩ = .gt ∧
     compareDecimal ⟨.nan, false, 0, 0⟩ ⟨.nan, false, 0, 0⟩ = .eq := by decide
 
-/-- instances of the two unproved statements (tests, not proofs): 1.0 = 1.00 with different bytes,
-−12.5 < 3, 10^19 (two 64-bit words) round-trips, −0 reads back as +0 -/
+/-- instances: 1.0 = 1.00 with different bytes, −12.5 < 3, 10^19 (two 64-bit words) round-trips,
+−0 reads back as +0 (the one value excluded from `roundtrip_decimal`) -/
 example :
     compareEnc .decimal (writeDecimal ⟨.finite, false, 10, -1⟩) (writeDecimal ⟨.finite, false, 100, -2⟩) = .ok .eq ∧
     writeDecimal ⟨.finite, false, 10, -1⟩ ≠ writeDecimal ⟨.finite, false, 100, -2⟩ ∧
